@@ -81,15 +81,20 @@ def cred_wire(creds, deny):
 
 def check_c06(run):
     vh = run.build_vh()
-    mc = run.tlc("Security", "MCSecurity", workers=8, timeout=900)
+    # thorough tier: a fourth scheme (an apiKey in the query) - alternatives of two out of four schemes,
+    # requirements whose two alternatives are disjoint, credentials for all four at once
+    four = run.tier != "quick"
+    sub1 = {'CONSTANT Schemes = {"key", "basic", "oauth"}': 'CONSTANT Schemes = {"key", "basic", "oauth", "qkey"}'} if four else {}
+    sub = dict(sub1, **{"SchemeSeq <- MCSchemeSeq": "SchemeSeq <- MCSchemeSeq4"}) if four else {}
+    mc = run.tlc("Security", "MCSecurity", workers=8, timeout=1800, cfg_subst=sub1)
     if not mc["ok"]:
         raise Infra("Security design check failed: " + mc["out"][-2000:])
     # negative control of the design: with an authenticator missing from AuthenticatorsFor the
     # algorithm lets an AND alternative pass with one credential - TLC must find that counterexample
-    neg = run.tlc("Security", "MCSecurityMissing", workers=4, timeout=900, allow_fail=True)
+    neg = run.tlc("Security", "MCSecurityMissing", workers=4, timeout=900, allow_fail=True)   # three schemes suffice for the counterexample
     if "OnlyIfSatisfied is violated" not in neg["out"]:
         raise Infra("negative control failed: missing authenticator did not violate OnlyIfSatisfied")
-    gen = run.tlc("GenSecurity", "GenSecurity", workers=1, timeout=900)
+    gen = run.tlc("GenSecurity", "GenSecurity", workers=1, timeout=900, cfg_subst=sub)
     if not gen["ok"]:
         raise Infra("GenSecurity failed: " + gen["out"][-2000:])
     cases = [e for t, e in gen["emitted"] if t == "CASE"]
@@ -178,7 +183,8 @@ def check_c06(run):
     cov = dict(states=mc["states"] + gen["states"], transitions=mc["transitions"] + gen["transitions"],
                traces_validated_against_impl=nreq, evaluations=nreq,
                distinct_nontrivial=len({json.dumps([e["g"], e["inherit"], e["own"], e["creds"], e["deny"], e["valid"]], sort_keys=True) for e in events if e["ev"] == "Request"}),
-               rule="every operation requirement shape (<= 2 alternatives of <= 2 of 3 schemes, anonymous, inherit, explicit []) under 3 global requirements x every credential-class assignment to the mentioned schemes (+ an unrequested credential), authorizer deny on every third",
+               schemes=4 if four else 3,
+               rule="every operation requirement shape (<= 2 alternatives of <= 2 of the schemes, anonymous, inherit, explicit []) under 3 global requirements x every credential-class assignment to the mentioned schemes (+ an unrequested credential), authorizer deny on every third",
                samples=[e for e in events if e["ev"] == "Request"][:2], servers=len(globs), operations=len(cases),
                negative_control="MCSecurityMissing violates OnlyIfSatisfied as required", rejected_events=len(rejects), exhaustive=True)
     return finish(run, "model_checking", cov, ASSUME)
@@ -212,7 +218,8 @@ def frag_wire(p, frag, opidx):
 
 def check_c03(run):
     vh = run.build_vh()
-    gen = run.tlc("GenParams", "GenParams", workers=4, timeout=900)
+    deep = run.tier != "quick"
+    gen = run.tlc("GenParams", "GenParams", workers=4, timeout=1800, cfg_subst={"Deep = FALSE": "Deep = TRUE"} if deep else None)
     if not gen["ok"]:
         raise Infra("GenParams failed: " + gen["out"][-2000:])
     cases = sorted((e for t, e in gen["emitted"] if t == "CASE"), key=lambda c: json.dumps(c["p"], sort_keys=True))
